@@ -128,6 +128,9 @@ impl SimRead {
     }
 
     fn serve(&mut self, buf: &mut [u8], n: usize) {
+        if n == 0 {
+            return; // EOF (the position may lie beyond the end after a seek)
+        }
         let p = self.pos as usize;
         buf[..n].copy_from_slice(&self.data[p..p + n]);
         self.served.push((self.pos, n));
@@ -182,10 +185,12 @@ impl AsyncRead for SimRead {
         }
         let want = buf.remaining();
         let n = me.decide(want)?;
-        let p = me.pos as usize;
-        buf.put_slice(&me.data[p..p + n]);
-        me.served.push((me.pos, n));
-        me.pos += n as u64;
+        if n > 0 {
+            let p = me.pos as usize;
+            buf.put_slice(&me.data[p..p + n]);
+            me.served.push((me.pos, n));
+            me.pos += n as u64;
+        }
         Poll::Ready(Ok(()))
     }
 }
